@@ -53,6 +53,8 @@ def run_schedule(sched, var):
             st.call(ev, sub.subscribe_eventgroup, eg_obj(inp["g"]), sdenv.ADDR[inp["srv"]])
         elif op == "unsubscribe":
             st.call(ev, sub.stop_subscribe_eventgroup, eg_obj(inp["g"]), sdenv.ADDR[inp["srv"]])
+        elif op == "defer":       # the application queues the call with call_soon: it runs among the library's callbacks of the next iteration
+            st.call(ev, st.loop.call_soon, do, inp["e"])
     tmax = 0
     for inp in sched:
         st.loop.inject(inp["t"], (lambda i=inp: do(i)), inp.get("j", 0))
@@ -70,7 +72,11 @@ def gen(rng, n):
     hot_srv = rng.choice(SRVS)
     hot = [(g, hot_srv) for g in rng.sample(BASE, 2)] + [(rng.choice(BASE), rng.choice(SRVS))]
 
+    busy = set()
+
     def toggle(t, j, k):
+        if (t, j, k) in busy:
+            return
         if k in req:
             req.discard(k)
             sched.append({"t": t, "j": j, "op": "unsubscribe", "g": k[0], "srv": k[1]})
@@ -82,6 +88,19 @@ def gen(rng, n):
         if r < 0.18:
             sched.append({"t": t, "j": j, "op": "sub_stop" if alive else "sub_start"})
             alive = not alive
+        elif r < 0.30:        # a stop-subscribe that the application has queued with call_soon, next to a request for the same key
+            k = rng.choice(hot)   # (only stop-subscribes are queued: no duplicate subscribe can result; the key is left alone for the
+            if (t, j, k) in busy:  #  rest of this loop position)
+                continue
+            if rng.random() < 0.3 and not alive:
+                sched.append({"t": t, "j": j, "op": "sub_start"})
+                alive = True
+            sched.append({"t": t, "j": j, "op": "defer", "e": {"op": "unsubscribe", "g": k[0], "srv": k[1]}})
+            if k in req:
+                req.discard(k)
+            else:
+                sched.append({"t": t, "j": j, "op": "subscribe", "g": k[0], "srv": k[1]})
+            busy.add((t, j, k))
         elif r < 0.45:        # a burst in one iteration: some request, then the same key flipped twice (or three times)
             toggle(t, j, rng.choice(hot))
             k = rng.choice(hot)
@@ -149,6 +168,7 @@ def check(ctx):
     m1 = Mode1(ctx, "MC_Ann")
     m1.holds("refresh 2, TTL 6", "C14_quick.cfg", None if ctx.quick else {"MaxEv = 4": "MaxEv = 6"}, timeout=3000)
     m1.holds("infinite TTL, no refresh", "C14_quick.cfg", dict({"C14_A": "C14_B"}, **({} if ctx.quick else {"MaxEv = 4": "MaxEv = 6"})), timeout=3000)
+    m1.holds("calls queued by the application with call_soon (one key)", "C14_quick.cfg", {"C14_Inputs": "C14_InputsD"}, timeout=3000)
     m1.caught("SwSubOrder", "C14_quick.cfg")
     traces = traces_for(ctx.seed, ctx.pick(900, 9000), ctx.pick(10, 16))
     bad, ms = judge(ctx, "Mon_C14", traces + scale_traces(), "subscriber histories", payload)
